@@ -29,9 +29,6 @@ Proof. intros d o H. destruct o; exact (DataProofs.step_inv V vzero vdef d _ H).
 Lemma run_calls_inv : forall l d, Inv d -> Inv (run_calls d l).
 Proof. induction l as [|o l IH]; intros d H; simpl; [exact H|]. apply IH. apply dop_apply_inv. exact H. Qed.
 
-(* the precisions stored by the NPD loader: the invariant asks for >= 1 *)
-Definition prec_ok (o : ndop) : bool := match o with NCall _ => true | NFprec v | NDprec v => 1 <=? v end.
-
 Lemma ndop_apply_inv : forall d o, Inv d -> prec_ok o = true -> Inv (ndop_apply d o).
 Proof.
   intros d o H Hp. destruct o as [c|v|v]; simpl in *.
@@ -57,18 +54,13 @@ Qed.
 
 (* ---- NPD ------------------------------------------------------------------------------------------------------------------- *)
 Theorem npd_dest_usable_lemma : forall name_ft bytes k d,
-  Inv d ->
-  match mem_load_npd NFixed bytes (start k) with
-  | Alloc.Ok ((_, rep), _) =>
-      forallb prec_ok (nr_calls rep) = true ->
-      exists d', npd_dest V vzero vdef vany name_ft bytes k d = Some d' /\ Inv d'
-  | Fault _ => False
-  end.
+  Inv d -> exists d', npd_dest V vzero vdef vany name_ft bytes k d = Some d' /\ Inv d'.
 Proof.
   intros name_ft bytes k d H. unfold npd_dest.
   pose proof (LV.Files.TsMemNpdProofs.npd_no_fault_lemma bytes k) as Hnf.
-  destruct (mem_load_npd NFixed bytes (start k)) as [[[r rep] s]|f]; [|exact (Hnf f eq_refl)].
-  intros Hp. eexists; split; [reflexivity|]. apply run_ncalls_inv; [apply run_calls_inv; exact H | exact Hp].
+  pose proof (LV.Files.TsMemNpdProofs.npd_precisions_ok_lemma bytes k) as Hp.
+  destruct (mem_load_npd NFixed bytes (start k)) as [[[r rep] s]|f]; [|exfalso; exact (Hnf f eq_refl)].
+  eexists; split; [reflexivity|]. apply run_ncalls_inv; [apply run_calls_inv; exact H | exact (Hp _ _ eq_refl)].
 Qed.
 
 (* ---- unchanged unless re-initialised ----------------------------------------------------------------------------------------- *)
@@ -98,23 +90,58 @@ Proof.
   pose proof (IH (dop_apply d o) B) as H1. pose proof (meta_call_same d o A) as H2.
   unfold same_object in *. intuition congruence.
 Qed.
+(* ---- what IS left in the destination after a failed load ---------------------------------------------------------------- *)
+(* type, rows, columns and number of frequencies are those left by the LAST call that can change the shape
+   (vnadata_init, vnadata_resize, vnadata_add_frequency); every later call keeps them *)
+Definition dims (d : vd) := (DataModel.ty V d, DataModel.rows V d, DataModel.cols V d, DataModel.freqs V d).
+
+Lemma nonshape_dims : forall d o, shape_call o = false -> dims (dop_apply d o) = dims d.
+Proof.
+  intros d o H. destruct o; try discriminate; unfold dims; simpl.
+  - unfold DataModel.set_filetype. destruct ((0 <=? k) && (k <=? 3)); reflexivity.
+  - reflexivity.
+  - unfold DataModel.set_all_z0, DataModel.convert_to_z0. destruct (DataModel.per_f V d); simpl;
+      match goal with |- context [if ?c then _ else _] => destruct c end; reflexivity.
+  - unfold DataModel.set_z0_vector, DataModel.convert_to_z0. destruct (DataModel.per_f V d); simpl;
+      match goal with |- context [if ?c then _ else _] => destruct c end; reflexivity.
+  - unfold DataModel.set_frequency. destruct (negb (DataModel.in_range i (DataModel.freqs V d))); [reflexivity|].
+    match goal with |- context [if ?c then _ else _] => destruct c end; reflexivity.
+  - unfold DataModel.set_fz0_vector. destruct (negb (DataModel.in_range i (DataModel.freqs V d))); [reflexivity|].
+    unfold DataModel.convert_to_fz0. destruct (DataModel.per_f V d); simpl;
+      match goal with |- context [if ?c then _ else _] => destruct c end; reflexivity.
+Qed.
+
+Lemma run_nonshape_dims : forall l d, forallb (fun o => negb (shape_call o)) l = true -> dims (run_calls d l) = dims d.
+Proof.
+  induction l as [|o l IH]; intros d H; simpl in *; [reflexivity|].
+  apply andb_true_iff in H. destruct H as [A B]. rewrite (IH _ B). apply nonshape_dims. apply negb_true_iff. exact A.
+Qed.
+
+Theorem dest_shape_last_call_lemma : forall l1 o l2 d,
+  forallb (fun c => negb (shape_call c)) l2 = true ->
+  dims (run_calls d (l1 ++ o :: l2)) = dims (dop_apply (run_calls d l1) o).
+Proof.
+  intros l1 o l2 d H. unfold LoadFail.run_calls. rewrite fold_left_app. simpl.
+  apply (run_nonshape_dims l2 _ H).
+Qed.
+
 End DestProofs.
 
-(* '#:fprecision 0' is stored without the test of vnadata_set_fprecision (which refuses precision < 1): the load
-   succeeds and the loaded object does not satisfy the container invariant *)
+(* before fix DB91 '#:fprecision 0' was accepted (hline_step_asfound) and stored without the test of
+   vnadata_set_fprecision (which refuses precision < 1): that store breaks the container invariant; since the fix
+   the same file is refused *)
 Definition prec0_bytes : list N :=
   [35;58;102;112;114;101;99;105;115;105;111;110;32;48;10;                       (* #:fprecision 0 *)
    35;58;112;111;114;116;115;32;49;10;                                          (* #:ports 1 *)
    35;58;102;114;101;113;117;101;110;99;105;101;115;32;49;10;                   (* #:frequencies 1 *)
    35;58;112;97;114;97;109;101;116;101;114;115;32;83;114;105;10;                (* #:parameters Sri *)
    49;32;48;46;53;32;48;46;50;53;10]%N.                                         (* 1 0.5 0.25 *)
-Theorem npd_dest_precision_refuted_lemma :
-  (exists o, load_npd prec0_bytes = NOk o) /\
-  exists d', (npd_dest unit tt tt tt 3 prec0_bytes None harness_dest = Some d') /\
-             (DataModel.fprec unit d' = 0) /\ (~ DataProofs.Inv unit tt tt d').
+Theorem npd_precision_asfound_refuted_lemma :
+  (exists h', hline_step_asfound nh0 NKFprecision (hd [] (npd_lines prec0_bytes)) = inr h' /\ n_fprec h' = Some 0) /\
+  (~ DataProofs.Inv unit tt tt (ndop_apply unit tt tt tt harness_dest (NFprec 0))) /\
+  load_npd prec0_bytes = NError NEBADMSG.
 Proof.
-  split; [vm_compute; eexists; reflexivity|].
-  eexists. split; [vm_compute; reflexivity|]. split; [reflexivity|].
+  split; [eexists; split; vm_compute; reflexivity|]. split; [|vm_compute; reflexivity].
   unfold DataProofs.Inv. simpl. intros (_&_&_&_&_&H&_). lia.
 Qed.
 
